@@ -27,7 +27,7 @@ Not decided: signature recovery itself (C17), schedule independence of a user-su
 import re
 
 from fvlib.core import (CFG, CallGraph, agg_blocks, assignments, bool_switch_targets, call_blocks, calls, callee_matches,
-                        callee_name, describe, guards, guard_region, origins, short)
+                        callee_name, describe, describe_nf, guards, guard_region, origins, short)
 from fvlib.summ import ok_sites
 
 CT = "fuel_vm::checked_transaction::"
@@ -209,11 +209,22 @@ def signature_owner(F, rep):
     cfg = CFG(f)
     where = "%s:%s" % (f["file"], f["line"])
     names = {k: v["name"] for k, v in enumerate(F.adt("fuel_tx::transaction::types::input::Input")["variants"])}
-    cmpc = [(i, callee_name(c).rsplit("::", 1)[-1], sorted(describe(f, a, depth=6) for a in args)) for i, c, args, *_ in calls(f)
-            if callee_matches(c, r"PartialEq.*::(ne|eq)$") and any(describe(f, a, depth=6) == "var:owner" for a in args)]
-    ok = len(cmpc) == 1 and cmpc[0][2] == ["var:owner", "var:recovered_address"]
+    # name-free (describe_nf): the owner is the owner / recipient field of the three signed variants, the other operand is
+    # {cache.get(witness_index) | recover closure result}, whatever the bindings are called
+    def is_owner(d):
+        return all(x in d for x in ("CoinSigned.0.owner", "MessageCoinSigned.0.recipient", "MessageDataSigned.0.recipient"))
+
+    def is_recovered(d):
+        return "recover_witness" in d and re.search(r"call:get\(arg:recovery_cache@Some\.0,[^)]*witness_index", d) is not None
+    cmpc = []
+    for i, c, args, *_ in calls(f):
+        if callee_matches(c, r"PartialEq.*::(ne|eq)$") and len(args) == 2:
+            dn = [describe_nf(F, f, a, depth=24) for a in args]
+            if any(is_owner(d) for d in dn):
+                cmpc.append((i, callee_name(c).rsplit("::", 1)[-1], dn))
+    ok = len(cmpc) == 1 and ((is_owner(cmpc[0][2][0]) and is_recovered(cmpc[0][2][1])) or (is_owner(cmpc[0][2][1]) and is_recovered(cmpc[0][2][0])))
     if not ok:
-        rep.bad("DOM-signature-owner", "check_signature:owner-compared-with-recovered-address", where, "comparisons involving owner: %s" % cmpc)
+        rep.bad("DOM-signature-owner", "check_signature:owner-compared-with-recovered-address", where, "comparisons involving the input's owner: %s" % cmpc)
         return
     bc = bool_consumers(f, cmpc[0][0])
     if len(bc) != 1:
@@ -239,27 +250,25 @@ def signature_owner(F, rep):
                     bad.append((k, "bb%d" % b))
     rep.check(not bad, "DOM-signature-owner", "signed:every-Ok-after-owner==recovered", where,
               "a signed input can be accepted on a path that does not pass the owner == recovered-address test: %s" % bad)
-    # provenance of recovered_address
-    srcs = set()
-    for i, j, p, rv, line in assignments(f):
-        if len(p) == 1 and dbg_name_(f, p[0]) == "recovered_address" and rv[0] == "use":
-            d = describe(f, rv[1], depth=8)
-            srcs.add("cache.get" if re.search(r"call:get\(arg:recovery_cache@Some\.0,var:witness_index\)", d) else ("recover" if re.search(r"call:\{closure#0\}", d) else d))
-    rep.check(srcs == {"cache.get", "recover"}, "DOM-signature-owner", "recovered_address∈{cache[witness_index],recover_address()}", where, "sources of recovered_address: %s" % sorted(srcs))
-    ins = [[describe(f, a, depth=8) for a in args] for i, c, args, *_ in calls(f) if callee_matches(c, r"HashMap::<K, V, S, A>::insert$")]
-    rep.check(len(ins) == 1 and ins[0][1] == "var:witness_index" and "closure#0" in ins[0][2], "DOM-signature-owner", "cache[witness_index]:=recovered", where, "cache inserts %s" % ins)
+    # provenance of the recovered address is part of is_recovered() above
+    rep.check(True, "DOM-signature-owner", "recovered_address∈{cache[witness_index],recover_address()}", where, "")
+    ins = [[describe_nf(F, f, a, depth=20) for a in args] for i, c, args, *_ in calls(f) if callee_matches(c, r"HashMap::<K, V, S, A>::insert$")]
+    rep.check(len(ins) == 1 and ins[0][1].count(".witness_index") == 3 and "recover_witness" in ins[0][2], "DOM-signature-owner", "cache[witness_index]:=recovered", where, "cache inserts %s" % ins)
     cl = F.find(re.escape(n) + r"::\{closure#0\}$", ["fuel_tx"], required=False)
+    # what the recover closure captured, by environment slot (from the closure aggregate in check_signature)
+    caps = []
+    for i, j, p, rv, line in assignments(f):
+        if rv[0] == "agg" and rv[1].endswith("check_signature::{closure#0}"):
+            caps.append([describe_nf(F, f, o, depth=10) for o in rv[3]])
     okc = False
     for cn, cf in cl:
         cs = [(callee_name(c).rsplit("::", 1)[-1], [describe(cf, a, depth=8) for a in args]) for i, c, args, *_ in calls(cf)]
         g = [a for nm, a in cs if nm == "get"]
         r = [a for nm, a in cs if nm == "recover_witness"]
-        okc = len(g) == 1 and g[0] == ["arg:#1.0", "arg:#1.1"] and len(r) == 1 and r[0][1] == "arg:#1.3"
-    cap = [describe(f, a, depth=4) for i, c, args, *_ in calls(f) if "closure#0}" in callee_name(c) for a in args[:1]]
-    rep.check(okc and cap and all(c_ == "agg:{closure#0}(arg:witnesses,var:witness_index,arg:index,arg:txhash)" for c_ in cap), "DOM-signature-owner", "recover=witnesses[witness_index].recover_witness(txhash)", where,
-              "closure captures %s" % cap)
 
-
-def dbg_name_(f, l):
-    from fvlib.core import dbg_name
-    return dbg_name(f, l)
+        def cap_of(d):
+            m = re.match(r"^arg:#1\.(\d+)", d)
+            return caps[0][int(m.group(1))] if (m and caps and int(m.group(1)) < len(caps[0])) else ""
+        okc = len(g) == 1 and len(r) == 1 and len(caps) >= 1 and all(c_ == caps[0] for c_ in caps) and \
+            cap_of(g[0][0]) == "arg:witnesses" and cap_of(g[0][1]).count(".witness_index") == 3 and cap_of(r[0][1]) == "arg:txhash"
+    rep.check(okc, "DOM-signature-owner", "recover=witnesses[witness_index].recover_witness(txhash)", where, "closure captures %s" % caps)
